@@ -342,6 +342,9 @@ class Interp:
             self.overlay[(id(obj.__dict__), name)] = val
             self.ctx.effects.append(('global', obj.__name__, name))
             return
+        if (getattr(type(obj), '__module__', '') or '').startswith('props'):
+            object.__setattr__(obj, name, val)       # ghost object of the contract layer
+            return
         raise Unsupported(f"setattr on {type(obj).__name__}.{name}")
 
     # ---------------- calls --------------------------------------------------------------
